@@ -34,7 +34,8 @@ Gen<Case> makeGraphGen(const Cfg &cfg) {
     std::string extra = cfgGet(cfg, "extra", "");
     int subsets = (int)cfgInt(cfg, "subsets", 0);
     bool conc = cfgInt(cfg, "conc", 0) != 0;
-    int removals = (int)cfgInt(cfg, "removals", 12); // percentage of `r` (removeEdge) entries among the edge ops
+    int removals = (int)cfgInt(cfg, "removals", 12);
+    int forced = (int)cfgInt(cfg, "forced", 0); // percentage of forced (duplicate-creating) adds // percentage of `r` (removeEdge) entries among the edge ops
     return gen::exec([=]() {
         std::string cl = *gen::resize(kNominalSize, gen::elementOf(classes));
         auto parts = splitList(cl, ':');
@@ -61,12 +62,14 @@ Gen<Case> makeGraphGen(const Cfg &cfg) {
         // edges: raw endpoints reduced modulo n by the executor; small values dominate so that
         // repeats, reciprocal pairs and self-loops all occur
         int nn = std::max(n, 1);
-        auto eg = gen::map(gen::tuple(uni(0, nn), uni(0, nn), uni(0, xmax), wel({{5, 0}, {1, 1}, {1, 2}}), uni(0, 100)), [removals](const std::tuple<int, int, int, int, int> &t) {
+        auto eg = gen::map(gen::tuple(uni(0, nn), uni(0, nn), uni(0, xmax), wel({{5, 0}, {1, 1}, {1, 2}}), uni(0, 100)), [removals, forced](const std::tuple<int, int, int, int, int> &t) {
             int i = std::get<0>(t), j = std::get<1>(t);
             if (std::get<3>(t) == 1)
                 j = i; // self-loop
             Op o = eOp(i, j, std::get<2>(t));
-            if (std::get<4>(t) < removals) {
+            if (std::get<4>(t) >= 100 - forced) {
+                o.kind = "f"; // forced duplicate (only the labelled classes act on it)
+            } else if (std::get<4>(t) < removals) {
                 // removal history: removeEdge(i, j) in the orientation given
                 o.kind = "r";
                 o.a.resize(2);
@@ -114,6 +117,7 @@ Gen<Case> makeFamilyGen(const Cfg &cfg) {
         else if (fam == "looppath") { a = *uni(2, 151); b = 0; }
         else if (fam == "tristrip") { a = *uni(3, 151); b = 0; }
         else if (fam == "cliquechain") { a = *uni(2, 7); b = *uni(1, 31); }
+        else if (fam == "fanin") { a = *uni(2, 25); b = *uni(2, 49); }
         c.set("fa", S(a));
         c.set("fb", S(b));
         c.set("fw", S(*wel({{3, 0}, {3, 1}, {2, 2}, {2, 3}})));
